@@ -37,7 +37,8 @@ func main() {
 		Rule: "inputs = seed programs (examples/**/*.vcl, /verif/corpus, hostile hand corpus) and their mutants (token-boundary truncation, " +
 			"token delete/dup/swap/replace-by-class, splice, byte flips, hostile fragment insertion, depth bombs); each is lexed to EOF under the token monitor " +
 			"(T1 type non-empty, T2 position designates the spelling, T3 strict advance, T4 token budget) and parsed through ParseVCL, ParseSnippetVCL and " +
-			"ParseVCLOrSnippet under the EOF-budget tokenizer (T5) with result/err exclusivity and error-token-was-delivered checks. " +
+			"ParseVCLOrSnippet under the EOF-budget tokenizer (T5) with result/err exclusivity and error-token-was-delivered checks; a tree without an error for an input whose braces or parentheses do not pair up (counted on falco's own token stream; inputs with pragma / control tokens exempt) is a violation (A6); " +
+			"770 numeric literal forms (ten count spellings x {no unit, ms, s, m, h, d, y} x eleven contexts) must each be delivered as one INT / FLOAT / RTIME token whose literal is the text written. " +
 			"non-trivial = reaches the parser with >=3 tokens and is not byte-identical to a seed; distinct by input hash",
 		Assumptions: []string{
 			"termination is restated as bounded progress: <=64 token pulls after the first EOF, <=len(runes)+2 tokens before it, and a per-batch wall-clock watchdog with isolated re-run",
@@ -168,6 +169,24 @@ func gen(g *fw.GenCtx) {
 	}
 	for _, h := range hostile {
 		e.add("hostile", h)
+	}
+	// numeric literal forms: every count spelling x every RTIME unit (and none) x contexts. The
+	// mutator name carries the expected token: litform|<TYPE>|<literal>
+	for _, cnt := range []string{"0", "1", "15", "300", "1.5", "0.25", "2.5", "10.0", "0.001", "86400"} {
+		for _, unit := range []string{"", "ms", "s", "m", "h", "d", "y"} {
+			typ := "INT"
+			if strings.Contains(cnt, ".") {
+				typ = "FLOAT"
+			}
+			if unit != "" {
+				typ = "RTIME"
+			}
+			lit := cnt + unit
+			for _, ctx := range []string{"sub f { set x = %s; }", "sub f { set x = %s ; }", "sub f {\n  set beresp.ttl = %s;\n}\n", "sub f { if (x > %s) { } }", "sub f { if (x > %s && y) { } }",
+				"sub f { set x = g(%s); }", "sub f { set x = g(%s, 1); }", "sub f { set x = %s\n; }", "sub f { set x = %s/* c */; }", "sub f { set x -= %s;}", "sub f { set x = (%s); }"} {
+				e.add("litform|"+typ+"|"+lit, fmt.Sprintf(ctx, lit))
+			}
+		}
 	}
 	for _, n := range []int{10, 100, 1000, g.Pick(3000, 10000)} {
 		for _, b := range depthBombs(n) {
@@ -423,6 +442,13 @@ func run(c fw.Case) fw.Outcome {
 		oc.Evals++
 		oc.Tag("mut:" + in.Mut)
 		viols, ntok := checkOne(src, &oc)
+		if strings.HasPrefix(in.Mut, "litform|") {
+			if v := checkLitForm(in.Mut, string(src)); v != nil {
+				viols = append(viols, *v)
+			} else {
+				oc.Tag("litform:" + strings.SplitN(in.Mut, "|", 3)[1] + ":one-token")
+			}
+		}
 		for _, v := range viols {
 			oc.Violate(v.key, v.what, map[string]any{"input_b64": in.B64, "input": clip(string(src), 600), "mutator": in.Mut})
 		}
@@ -566,6 +592,10 @@ func checkOne(src []byte, oc *fw.Outcome) (viols []violation, ntok int) {
 		}
 		if err == nil {
 			oc.Tag("parse-ok:" + e.name)
+			// A6: a tree for an input whose braces or parentheses do not balance is not a tree of the input
+			if what := unbalanced(src); what != "" {
+				add(&violation{"accept:unbalanced-" + what + "/" + e.name, fmt.Sprintf("%s returned a tree and no error although the %s of the input do not balance", e.name, what)})
+			}
 			continue
 		}
 		pe, ok := errors.Cause(err).(*parser.ParseError)
@@ -609,3 +639,75 @@ func crashKey(c fw.Case, kind, stderr string) string {
 
 var _ = os.Stderr
 var _ = filepath.Join
+
+// unbalanced reports whether the token stream (up to the first EOF token, which is where the
+// parser stops) has braces or parentheses that do not pair up.
+func unbalanced(src []byte) string {
+	l := lexer.NewFromString(string(src))
+	brace, paren := 0, 0
+	for i := 0; i < len(src)+4; i++ {
+		t := l.NextToken()
+		switch t.Type {
+		case token.EOF:
+			switch {
+			case brace != 0:
+				return "braces"
+			case paren != 0:
+				return "parentheses"
+			}
+			return ""
+		case token.PRAGMA, token.FASTLY_CONTROL:
+			// the parser skips the tokens of a pragma / control line without looking at them
+			return ""
+		case token.LEFT_BRACE:
+			brace++
+		case token.RIGHT_BRACE:
+			brace--
+		case token.LEFT_PAREN:
+			paren++
+		case token.RIGHT_PAREN:
+			paren--
+		}
+		if brace < 0 {
+			return "braces"
+		}
+		if paren < 0 {
+			return "parentheses"
+		}
+	}
+	return ""
+}
+
+// checkLitForm: the numeric literal of the input is delivered as ONE token of the expected type
+// whose literal is the text written.
+func checkLitForm(mut, src string) *violation {
+	parts := strings.SplitN(mut, "|", 3)
+	typ, lit := parts[1], parts[2]
+	l := lexer.NewFromString(src)
+	var seen []string
+	for i := 0; i < len(src)+4; i++ {
+		t := l.NextToken()
+		if t.Type == token.EOF {
+			break
+		}
+		if t.Literal == lit {
+			if string(t.Type) == typ {
+				return nil
+			}
+			return &violation{"litform:type/" + typ + "/" + unitOf(lit), fmt.Sprintf("literal %s is delivered as a %s token, expected %s", lit, t.Type, typ)}
+		}
+		seen = append(seen, fmt.Sprintf("%s(%s)", t.Type, t.Literal))
+	}
+	return &violation{"litform:split/" + typ + "/" + unitOf(lit), fmt.Sprintf("literal %s is not delivered as one token; tokens: %s", lit, clip(strings.Join(seen, " "), 300))}
+}
+
+func unitOf(lit string) string {
+	u := strings.TrimLeft(lit, "0123456789.")
+	if u == "" {
+		u = "no-unit"
+	}
+	if strings.Contains(lit, ".") {
+		u += "+fraction"
+	}
+	return u
+}
